@@ -678,3 +678,164 @@ Section ArrayRefines.
       rewrite Ha. auto.
   Qed.
 End ArrayRefines.
+
+(* ------------------------------------------------------------------ observers: len and iteration *)
+Section Observers.
+  Variable E : Type.
+  Notation SomeE := (@Some E).
+
+  Lemma firstn_S_nth (vs : list E) c x :
+    nth_error vs c = Some x -> firstn (S c) vs = firstn c vs ++ [x].
+  Proof.
+    revert c. induction vs as [|y vs IH]; intros [|c] H; simpl in *; try discriminate.
+    - injection H as ->. reflexivity.
+    - f_equal. apply IH. exact H.
+  Qed.
+
+  Lemma a_iter_loop_spec (a : array E) vs rest :
+    cells E a = map SomeE vs ++ rest -> length vs = nitems E a ->
+    forall fuel c acc, c < length vs -> fuel = length vs - c -> rev acc = firstn c vs ->
+    a_iter_loop E fuel a (Z.of_nat c) acc = Ok vs.
+  Proof.
+    intros Hc Hn. induction fuel as [|fu IH]; intros c acc Hlt Hf Hacc; [lia|].
+    cbn [a_iter_loop]. unfold a_cell. rewrite Nat2Z.id, Hc.
+    destruct (nth_error vs c) as [x|] eqn:Hx; [|apply nth_error_None in Hx; lia].
+    rewrite nth_error_app1 by (rewrite map_length; lia).
+    rewrite (map_nth_error SomeE c vs Hx).
+    assert (Hr : rev (x :: acc) = firstn (S c) vs)
+      by (simpl; rewrite Hacc; symmetry; apply firstn_S_nth; exact Hx).
+    destruct (Z.leb_spec (Z.of_nat (nitems E a) - 1) (Z.of_nat c)) as [Hle|Hgt].
+    - rewrite Hr. rewrite firstn_all2 by lia. reflexivity.
+    - replace (Z.of_nat c + 1)%Z with (Z.of_nat (S c)) by lia.
+      apply IH; [lia | lia | exact Hr].
+  Qed.
+
+  Theorem a_observe (a : array E) :
+    a_inv E a -> nitems E a = length (a_abs E a) /\ a_iter E a = Ok (a_abs E a).
+  Proof.
+    intros (vs & rest & Hc & Hn & Hl).
+    assert (Ha : a_abs E a = vs) by (eapply a_abs_shape; eauto).
+    rewrite Ha. split; [auto|]. unfold a_iter.
+    destruct (Nat.eqb_spec (nitems E a) 0) as [H0|H0].
+    - destruct vs; [reflexivity | simpl in Hn; lia].
+    - apply (a_iter_loop_spec a vs rest Hc Hn (nitems E a) 0 []); simpl; lia || auto.
+  Qed.
+
+  Theorem l_observe (l : llist E) :
+    l_inv E l -> lnitems E l = length (l_abs E l) /\ l_iter E l = Ok (l_abs E l).
+  Proof.
+    intros H. red in H. unfold l_abs, l_iter. split; [exact H|].
+    destruct (Nat.eqb_spec (lnitems E l) 0) as [H0|H0].
+    - destruct (lelems E l); [reflexivity | simpl in H; lia].
+    - destruct (lelems E l); [simpl in H; lia | reflexivity].
+  Qed.
+End Observers.
+
+(* ------------------------------------------------------------------ reading the specification *)
+Section SpecFacts.
+  Variable E : Type.
+  Variable eqb ltb : E -> E -> bool.
+  Variable zero : E.
+  Notation spec_step := (spec_step E eqb ltb zero).
+
+  (* get with a negative index counts from the end: get(-i) is element len - i *)
+  Theorem spec_get_negative c (l : list E) i v :
+    1 <= i <= length l -> nth_error l (length l - i) = Some v ->
+    in_range E eqb c l (SGet E (- Z.of_nat i)) = true /\
+    spec_step c l (SGet E (- Z.of_nat i)) = (l, OVal E v).
+  Proof.
+    intros Hi Hv.
+    assert (Hnorm : norm (length l) (- Z.of_nat i) = Z.of_nat (length l - i)).
+    { unfold norm. destruct (Z.ltb_spec (- Z.of_nat i) 0); lia. }
+    assert (Hin : in_range E eqb c l (SGet E (- Z.of_nat i)) = true).
+    { simpl. rewrite Hnorm. unfold inb. apply andb_true_intro.
+      split; [apply Z.leb_le | apply Z.ltb_lt]; lia. }
+    split; [exact Hin|]. unfold SeqModels.spec_step. rewrite Hin. simpl negb. cbv iota.
+    rewrite Hnorm, Nat2Z.id, Hv. reflexivity.
+  Qed.
+
+  (* get with a non-negative index *)
+  Theorem spec_get_positive c (l : list E) i v :
+    nth_error l i = Some v ->
+    in_range E eqb c l (SGet E (Z.of_nat i)) = true /\
+    spec_step c l (SGet E (Z.of_nat i)) = (l, OVal E v).
+  Proof.
+    intros Hv. assert (Hi : i < length l) by (apply nth_error_Some; congruence).
+    assert (Hnorm : norm (length l) (Z.of_nat i) = Z.of_nat i).
+    { unfold norm. destruct (Z.ltb_spec (Z.of_nat i) 0); lia. }
+    assert (Hin : in_range E eqb c l (SGet E (Z.of_nat i)) = true).
+    { simpl. rewrite Hnorm. unfold inb. apply andb_true_intro.
+      split; [apply Z.leb_le | apply Z.ltb_lt]; lia. }
+    split; [exact Hin|]. unfold SeqModels.spec_step. rewrite Hin. simpl negb. cbv iota.
+    rewrite Hnorm, Nat2Z.id, Hv. reflexivity.
+  Qed.
+
+  Lemma remove_first_app l1 x l2 v :
+    eqb x v = true -> (forall y, In y l1 -> eqb y v = false) ->
+    remove_first E eqb v (l1 ++ x :: l2) = l1 ++ l2.
+  Proof.
+    intros Hx Hl. induction l1 as [|y l1 IH]; simpl.
+    - rewrite Hx. reflexivity.
+    - rewrite (Hl y) by (simpl; auto). f_equal. apply IH. intros z Hz. apply Hl. simpl. auto.
+  Qed.
+
+  (* rem deletes the first element equal to its argument, and only that one *)
+  Theorem spec_rem_first c (l1 : list E) x l2 v :
+    eqb x v = true -> (forall y, In y l1 -> eqb y v = false) ->
+    in_range E eqb c (l1 ++ x :: l2) (SRem E v) = true /\
+    spec_step c (l1 ++ x :: l2) (SRem E v) = (l1 ++ l2, OUnit E).
+  Proof.
+    intros Hx Hl.
+    assert (Hin : in_range E eqb c (l1 ++ x :: l2) (SRem E v) = true).
+    { simpl. rewrite existsb_app. simpl. rewrite Hx. simpl. apply orb_true_r. }
+    split; [exact Hin|]. unfold SeqModels.spec_step. rewrite Hin. simpl negb. cbv iota.
+    rewrite remove_first_app; auto.
+  Qed.
+
+  (* the executable reference sort of the specification driver is an instance of the sort relation *)
+  Section ISort.
+    Hypothesis ltb_asym : forall x y, ltb x y = true -> ltb y x = false.
+    Hypothesis ltb_negtrans : forall x y z, ltb y x = false -> ltb z y = false -> ltb z x = false.
+
+    Lemma insert_sorted_perm x l : Permutation (x :: l) (insert_sorted E ltb x l).
+    Proof.
+      induction l as [|y l IH]; simpl; [apply Permutation_refl|].
+      destruct (le E ltb x y); [apply Permutation_refl|].
+      eapply perm_trans; [apply perm_swap|]. apply perm_skip. exact IH.
+    Qed.
+
+    Lemma insert_sorted_sorted x l :
+      sorted_by_ltb E ltb l -> sorted_by_ltb E ltb (insert_sorted E ltb x l).
+    Proof.
+      unfold sorted_by_ltb. induction l as [|y l IH]; intros Hs; simpl.
+      - constructor; constructor.
+      - apply StronglySorted_inv in Hs as [Hs Hy].
+        unfold le. destruct (ltb y x) eqn:Eyx; simpl.
+        + constructor; [apply IH; exact Hs|].
+          apply Forall_forall. intros z Hz.
+          eapply Permutation_in in Hz; [|symmetry; apply insert_sorted_perm].
+          destruct Hz as [<-|Hz]; [apply ltb_asym; exact Eyx|].
+          rewrite Forall_forall in Hy. apply Hy. exact Hz.
+        + constructor; [constructor; assumption|].
+          constructor; [exact Eyx|].
+          rewrite Forall_forall in *. intros z Hz. eapply ltb_negtrans; [exact Eyx | apply Hy; exact Hz].
+    Qed.
+
+    Theorem isort_ok (l : list E) : Permutation l (isort E ltb l) /\ sorted_by_ltb E ltb (isort E ltb l).
+    Proof.
+      induction l as [|x l [IHp IHs]]; simpl.
+      - split; [constructor | constructor].
+      - split.
+        + eapply perm_trans; [apply perm_skip; exact IHp | apply insert_sorted_perm].
+        + apply insert_sorted_sorted. exact IHs.
+    Qed.
+
+    Theorem spec_sort_ok c (l : list E) :
+      in_range E eqb c l (SSort E) = true ->
+      spec_ok E eqb ltb zero c l (SSort E) (fst (spec_step c l (SSort E))) (snd (spec_step c l (SSort E))).
+    Proof.
+      intros Hin. unfold SeqModels.spec_step. rewrite Hin. simpl.
+      destruct (isort_ok l). repeat split; auto.
+    Qed.
+  End ISort.
+End SpecFacts.
